@@ -382,9 +382,12 @@ def shrink(v, runner):
     readings, whole, entries = p
     best = dict(v)
 
+    budget = [300]          # at most 300 re-runs: a greedy pass over a 66 000-call burst would take hours
+
     def fails(rd, en):
-        if not rd:
+        if not rd or budget[0] <= 0:
             return None
+        budget[0] -= 1
         line = mk(rd, en, whole)
         out = runner([line])[0]
         why = oracle(line, out, v.get("mode", "D"))
